@@ -53,9 +53,9 @@ bt('BT03', ['C01', 'C02', 'C03', 'C04', 'C10'], 'clear the slot before appending
                         self.front[path]['update'] = {}
                         updates.append(new_update)
 """))
-bt('BT04', ['C03', 'C01', 'C02', 'C12'], 'clock advance written as an assignment',
-   (E, "                self.global_time += full_step\n",
-       "                self.global_time = self.global_time + full_step\n"))
+bt('BT04', ['C03', 'C01', 'C02', 'C12'], 'next event time computed in two steps',
+   (E, "            next_time = self.global_time + full_step\n",
+       "            next_time = self.global_time\n            next_time = next_time + full_step\n"))
 bt('BT05', ['C01', 'C05', 'C07', 'C13'], 'results fetched in an explicit loop instead of a comprehension',
    (E, """        fetched_updates = [
             (update.get(), state) for update, state in update_tuples]
